@@ -794,6 +794,9 @@ class Tr:
                 b3, a3, t3 = self.apply(f, "U." + self.binops[op], [("__atom", paren(a2))], env, recv=("__atom", paren(a1)))
                 return bs + b3, a3, t3
             raise Unsupported("operator %s on Uint" % op)
+        if op in ("==", "!=") and t1 == "matrix":       # #[derive(PartialEq)] on the tuple struct
+            r = "(mat_eqb %s %s)" % (paren(a1), paren(a2))
+            return bs, r if op == "==" else "(negb %s)" % r, "bool"
         if op in ("==", "!=") and t1 == "ordering":
             r = "(match %s, %s with Lt, Lt | Eq, Eq | Gt, Gt => true | _, _ => false end)" % (a1, a2)
             return bs, r if op == "==" else "(negb %s)" % r, "bool"
@@ -973,6 +976,8 @@ class Tr:
         name = self.alias.get(name, name)
         if name.startswith("Self::") and f.selfty == "uint" and ("U." + name[6:]) in self.sigs:
             return self.apply(f, "U." + name[6:], args, env)
+        if name.startswith("Self::") and f.selfty == "matrix" and ("M." + name[6:]) in self.sigs:
+            return self.apply(f, "M." + name[6:], args, env)
         if name in ("crate::algorithms::cmp", "algorithms::cmp", "cmp") and "cmp" not in self.sigs:
             # slice comparison: NOT translated; Model/Add.v limbs_cmp (tie: C15 / C04 correspondence)
             b1, a1, _ = self.ex(f, args[0], env)
@@ -1201,6 +1206,8 @@ class Tr:
             return br + b, "(%s %s %s)" % (fn, paren(ar), paren(a)), ("tuple", [tr_, "bool"])
         if m == "leading_zeros" and tr_ == "u64":
             return br, "(clz64 %s)" % paren(ar), "u32"
+        if m == "leading_zeros" and tr_ == "u128":
+            return br, "(clz128 %s)" % paren(ar), "u32"
         if m == "trailing_zeros" and tr_ == "u64":
             return br, "(ctz64 %s)" % paren(ar), "u32"
         if m == "trailing_ones" and tr_ == "u64":
@@ -1302,6 +1309,24 @@ class Tr:
             return any(self.has_return(y) for y in x)
         if isinstance(x, list):
             return any(self.has_return(y) for y in x)
+        return False
+
+    def always_exits(self, blk):
+        """The block ends by return / continue / break on every path."""
+        if blk is None or blk[0] != "block" or blk[2] is not None or not blk[1]:
+            return False
+        last = blk[1][-1]
+        if last[0] == "return" or last in (("expr", ("var", "continue")), ("expr", ("var", "break"))):
+            return True
+        if last[0] == "expr" and last[1][0] == "if" and last[1][3] is not None:
+            return self.always_exits(last[1][2]) and self.always_exits(last[1][3])
+        return False
+
+    def has_break(self, x):
+        if x == ("var", "break"):
+            return True
+        if isinstance(x, (tuple, list)):
+            return any(self.has_break(y) for y in x)
         return False
 
     def desugar_foreach(self, e):
@@ -1505,6 +1530,10 @@ class Tr:
                 return "%s let '(%s) := %s in %s\n  %s" % (" ".join(b), ", ".join(x[0] for x in parts), a,
                                                          " ".join(post), rest(env))
             raise Unsupported("assignment target")
+        if k == "expr" and s[1] == ("var", "break"):
+            if not getattr(f, "breakfins", None):
+                raise Unsupported("break outside a fuelled while loop")
+            return f.breakfins[-1](env)
         if k == "expr" and s[1] == ("var", "continue"):
             if not getattr(f, "loopfins", None):
                 raise Unsupported("continue outside a for loop")
@@ -1544,10 +1573,17 @@ class Tr:
                 bc, ac, _ = self.ex(f, e[1], env, "bool")
                 th, el = e[2], e[3]
                 # early return / continue: `if c { ..; return e; }`, `if c { ..; continue; }`
-                if el is None and th[1] and th[2] is None and \
-                        (th[1][-1][0] == "return" or th[1][-1] == ("expr", ("var", "continue"))):
+                if el is None and self.always_exits(th):
                     body = self.stmts(f, th[1], 0, dict(env), lambda _e: "Panic", retty)
                     return "%s if %s then (%s) else\n  %s" % (" ".join(bc), ac, body, rest(env))
+                # `if c { ..; return x; } else { ..; return y; }`: nothing after it is reachable
+                if el is not None and self.always_exits(th) and self.always_exits(el):
+                    b1_ = self.stmts(f, th[1], 0, dict(env), lambda _e: "Panic", retty)
+                    b2_ = self.stmts(f, el[1], 0, dict(env), lambda _e: "Panic", retty)
+                    return "%s if %s then (%s) else (%s)" % (" ".join(bc), ac, b1_, b2_)
+                if self.has_return(th) or (el is not None and self.has_return(el)) or self.has_break(th) or \
+                        (el is not None and self.has_break(el)):
+                    raise Unsupported("return or break nested in an if that also falls through")
                 # value-less if with assignments: thread the assigned variables
                 vs = self.assigned(th)
                 if el is not None:
@@ -1643,13 +1679,27 @@ class Tr:
                 for v in vs:
                     env2[v] = (v, env[v][1])
                 bc, ac, tc = self.ex(f, c, env2, "bool")
-                bcode = self.stmts(f, body[1], 0, env2, lambda en: "Val " + tup(en), retty)
+                brk = self.has_break(body)
+                if brk:
+                    # `break` leaves the loop with the state at that point: the body yields Cont st | Ret st
+                    if not hasattr(f, "breakfins"):
+                        f.breakfins = []
+                    f.breakfins.append(lambda en: "Val (Ret " + tup(en) + ")")
+                    try:
+                        bcode = self.stmts(f, body[1], 0, env2, lambda en: "Val (Cont " + tup(en) + ")", retty)
+                    finally:
+                        f.breakfins.pop()
+                else:
+                    bcode = self.stmts(f, body[1], 0, env2, lambda en: "Val " + tup(en), retty)
                 f.impure = True
                 w, st = f.fresh(), f.fresh()
                 cur = tup(env)
                 env = dict(env)
                 for v in vs:
                     env[v] = (v, env[v][1])
+                if brk:
+                    return "do %s <- while_fuel_brk (%s) %s (fun %s => let '%s := %s in %s Val %s) (fun %s => let '%s := %s in %s) ;\n  let '%s := %s in\n  %s" % (
+                        w, WHILE_FUEL[f.gname], cur, st, pat, st, " ".join(bc), paren(ac), st, pat, st, bcode, pat, w, rest(env))
                 return "do %s <- while_fuel (%s) %s (fun %s => let '%s := %s in %s Val %s) (fun %s => let '%s := %s in %s) ;\n  let '%s := %s in\n  %s" % (
                     w, WHILE_FUEL[f.gname], cur, st, pat, st, " ".join(bc), paren(ac), st, pat, st, bcode, pat, w, rest(env))
             if e[0] == "while":
@@ -1901,6 +1951,7 @@ WHILE_FUEL = {
     "g_overflowing_pow": "Datatypes.S (Z.to_nat BITS)",     # exp < 2^BITS is halved every round
     "g_wrapping_pow": "Datatypes.S (Z.to_nat BITS)",
     "g_mat_from_u64": "70%nat",                   # r0 at least halves every round
+    "g_mat_from_u64_prefix": "64%nat",            # a3 at least halves every round
 }
 
 TARGETS = [
@@ -2023,6 +2074,8 @@ TARGETS = [
     ("src/add.rs", UINT_IMPL, "abs_diff", "U.abs_diff", "g_abs_diff", "uint"),
     ("src/algorithms/gcd/matrix.rs", "impl Matrix", "compose", "M.compose", "g_mat_compose", "matrix"),
     ("src/algorithms/gcd/matrix.rs", "impl Matrix", "from_u64", "M.from_u64", "g_mat_from_u64", "matrix"),
+    ("src/algorithms/gcd/matrix.rs", "impl Matrix", "from_u64_prefix", "M.from_u64_prefix", "g_mat_from_u64_prefix", "matrix"),
+    ("src/algorithms/gcd/matrix.rs", "impl Matrix", "from_u128_prefix", "M.from_u128_prefix", "g_mat_from_u128_prefix", "matrix"),
     ("src/algorithms/gcd/matrix.rs", "impl Matrix", "apply_u128", "M.apply_u128", "g_mat_apply_u128", "matrix"),
     ("src/modular.rs", UINT_IMPL, "reduce_mod", "U.reduce_mod", "g_reduce_mod", "uint"),
     ("src/modular.rs", UINT_IMPL, "add_mod", "U.add_mod", "g_add_mod", "uint"),
